@@ -193,6 +193,14 @@ func (server *SugarDB) handleCommand(ctx context.Context, message []byte, conn *
 		// Withdraw the announcement on every exit path: a write command that fails (or is handed to
 		// the cluster) must not leave it behind, otherwise the next state copy waits forever.
 		defer server.stateMutations.Add(-1)
+		// In standalone mode write commands run one at a time, from the first keyspace access to
+		// the append to the AOF: the log then holds the commands in the order in which they took
+		// effect (replaying it reproduces the dataset), and two writers can no longer interleave
+		// their read-modify-write steps. In a cluster the raft log provides the order.
+		if !server.isInCluster() {
+			server.writeCommit.Lock()
+			defer server.writeCommit.Unlock()
+		}
 	}
 
 	if !server.isInCluster() || !synchronize {
